@@ -516,6 +516,9 @@ func (r *c11Runner) one(cfg *c11Cfg, h c11Hist) {
 	}
 	run.Eval(cell)
 	run.Count("histories", 1)
+	if no%400 == 0 {
+		r.w.Up.Reset() // the upstream keeps every request (with its multi-kB Cookie header); replays also judge by status, so a lost record cannot hide anything
+	}
 	run.Count("refreshes", int64(refreshes))
 
 	// --- R3: store state vs answer
@@ -803,7 +806,7 @@ func TestVerif_C11(t *testing.T) {
 		fmt.Printf("INCONCLUSIVE property=C11 reason=no replay / no refresh observed\n")
 		t.Fail()
 	}
-	run.Finish(int64(run.Env.Pick(600, 4000)), run.Env.Pick(150, 300))
+	run.Finish(int64(run.Env.Pick(700, 8000)), run.Env.Pick(400, 800))
 }
 
 var _ = sort.Strings
